@@ -10,7 +10,7 @@ from vf import strategies as vs
 from vf.cms_common import DRAWS
 from vf.common import CEIL, Violation
 from vf.hh_common import none_threshold_ok
-from vf.world import CLASS_OF, make_sketch, plant, snapshot, snap_diff, snap_equal, sut
+from vf.world import CLASS_OF, interfere, make_sketch, plant, snapshot, snap_diff, snap_equal, sut
 
 import sketchnu.countmin as cmmod
 import sketchnu.heavyhitters as hhmod
@@ -150,6 +150,8 @@ def run_case(case, real_sleep=False):
         check("right after creation")
         for si, s in enumerate(case["steps"]):
             op = s["op"]
+            if si % 3 == 0:
+                interfere(cfg)
             if op == "attach":
                 if len(handles) < 3:
                     handles.append(attach(cfg, owner, s["how"]))
